@@ -541,7 +541,7 @@ pub struct RunOpts {
 
 impl Default for RunOpts {
     fn default() -> Self {
-        RunOpts { trace_op: None, stall_ms: 60_000, check_settings_independence: true, check_f64_agreement: true }
+        RunOpts { trace_op: None, stall_ms: std::env::var("VERIF_STALL_MS").ok().and_then(|s| s.parse().ok()).unwrap_or(60_000), check_settings_independence: true, check_f64_agreement: true }
     }
 }
 
